@@ -3,7 +3,7 @@
    of Spec/PedanticSpec.v, on one generated case; results are small integer codes.            *)
 From Coq Require Import List Arith Bool ZArith String.
 From PV Require Import Base.Exn Base.Values Base.Ann Base.PyCall Model.CheckerCfg Model.Checker Model.CheckerEval
-  Model.PedanticCfg Model.Pedantic Spec.Conforms Spec.PedanticSpec Gen.CheckerTables Gen.Pedantic.
+  Model.PedanticCfg Model.Pedantic Model.GenWrapper Spec.Conforms Spec.PedanticSpec Gen.CheckerTables Gen.Pedantic.
 Import ListNotations.
 Open Scope Z_scope.
 
@@ -74,3 +74,125 @@ Definition eval_call (mode : nat) (cl : list (nat * cls)) (f : fn) (c : call) (r
    enc_b (c03_args_bad ctx f c); enc_b (c03_result_bad ctx f (match r with Ok v => v | Raise _ => VNone end));
    enc_b (c04_call_ok ctx f c); enc_b (c04_result_ok ctx f r); enc_b (c05_positional f c); enc_b (no_oneshot_iter f c); -3]
   ++ journal_code (snd m) ++ [-4; out_code (fst t)] ++ journal_code (snd t).
+
+(* ---------------- generator functions ---------------- *)
+(* the scripted generator body of the harness (w_pedantic.py: Run.gen): a list of steps; a throw() is answered
+   according to on_throw: propagate (None), return a value, or yield a value and go on *)
+Inductive gstep := SYield (v : value) | SRet (v : value) | SRaise (e : exn).
+Inductive on_throw := TPropagate | TRet (v : value) | TYield (v : value).
+
+(* event produced by the LAST resumption of the history, with the identity tag of the object it carries:
+   k = index of the script step, 1000 = the on_throw object, -1 = None / not one of the script's objects *)
+Fixpoint sim (ot : on_throw) (rem : list gstep) (k : Z) (at_extra : bool) (hist : list resume) : gev * Z :=
+  match hist with
+  | [] => (GReturn VNone, -1)
+  | r :: hist' =>
+      let go_on (ev : gev) (tag : Z) (rem' : list gstep) (k' : Z) (extra : bool) :=
+        match hist' with [] => (ev, tag) | _ :: _ => match ev with GYield _ => sim ot rem' k' extra hist' | _ => (ev, tag) end end in
+      match r with
+      | RSend _ =>
+          match rem with
+          | [] => (GReturn VNone, -1)
+          | SYield v :: rem' => go_on (GYield v) k rem' (k + 1) false
+          | SRet v :: _ => (GReturn v, k)
+          | SRaise e :: _ => (GRaise e, k)
+          end
+      | RThrow e =>
+          if derives e GeneratorExitC || at_extra then (GRaise e, -1)
+          else match ot with
+               | TPropagate => (GRaise e, -1)
+               | TRet v => (GReturn v, 1000)
+               | TYield v => go_on (GYield v) 1000 rem k true
+               end
+      end
+  end.
+Definition script_body (ot : on_throw) (script : list gstep) : gbody := fun h => fst (sim ot script 0 false h).
+Definition script_tag (ot : on_throw) (script : list gstep) (h : list resume) : Z := snd (sim ot script 0 false h).
+
+Definition noctx : nat -> option cls := fun _ => None.
+Definition gen_check := checker1 noctx.
+
+Definition ires_code (r : ires) (tag : Z) : list Z :=
+  match r with
+  | IYield v => [0; 0; if is_none v then -1 else tag]
+  | IStop v => [1; 0; if is_none v then -1 else tag]
+  | IRaise e => [2; exn_code e; if (0 <=? tag) && (tag <? 1000) then 1 else 0]
+  | INone => [3; 0; -1]
+  end.
+
+(* per operation [kind; code; identity]: 0 a value came back, 1 StopIteration(value), 2 another exception
+   (code = class, identity = 1 iff it is the exception object of a script step), 3 close() returned *)
+Fixpoint ops_code (ot : on_throw) (script : list gstep) (y s r : ann) (w : wstate) (ops : list gop) : list Z * wstate :=
+  match ops with
+  | [] => ([], w)
+  | o :: ops' =>
+      let (res, w1) := w_step gen_check y s r (script_body ot script) w o in
+      let changed := negb (Nat.eqb (List.length (g_hist (w_inner w1))) (List.length (g_hist (w_inner w)))) in
+      let tag := if changed then script_tag ot script (g_hist (w_inner w1)) else -1 in
+      let code :=
+        match res with
+        | WValue v => [0; 0; if is_none v then -1 else tag]
+        | WStop v => [1; 0; if is_none v then -1 else tag]
+        | WRaise e =>
+            let own := match script_body ot script (g_hist (w_inner w1)) with GRaise e' => changed && list_nat_eqb e e' | _ => false end in
+            [2; exn_code e; if own && (0 <=? tag) && (tag <? 1000) then 1 else 0]
+        | WNone => [3; 0; -1]
+        end in
+      let (rest, w2) := ops_code ot script y s r w1 ops' in
+      (code ++ rest, w2)
+  end.
+
+(* the undecorated generator driven by the same operations *)
+Fixpoint twin_ops_code (ot : on_throw) (script : list gstep) (g : gstate) (ops : list gop) : list Z :=
+  match ops with
+  | [] => []
+  | o :: ops' =>
+      let body := script_body ot script in
+      let (res, g1) := match o with
+                       | OpNext => inner_send body g VNone
+                       | OpSend v => inner_send body g v
+                       | OpThrow e => inner_throw body g e
+                       | OpClose => inner_close body g
+                       end in
+      let changed := negb (Nat.eqb (List.length (g_hist g1)) (List.length (g_hist g))) in
+      let tag := if changed then script_tag ot script (g_hist g1) else -1 in
+      let tag' := match res with IRaise e => (match script_body ot script (g_hist g1) with GRaise e' => if changed && list_nat_eqb e e' then tag else -1 | _ => -1 end) | _ => tag end in
+      ires_code res tag' ++ twin_ops_code ot script g1 ops'
+  end.
+
+Definition step_value (st : gstep) : option value := match st with SYield v | SRet v => Some v | SRaise _ => None end.
+Definition bad_under (a : ann) (ov : option value) : Z :=
+  match ov with Some v => enc_b (supported noctx a && is_mustnot (conforms noctx a v)) | None => 0 end.
+Definition ok_under (a : ann) (ov : option value) : Z :=
+  match ov with Some v => enc_b (supported noctx a && is_must (conforms noctx a v)) | None => 1 end.
+
+(* [outcome of calling the generator function; c03_args_bad; c04_call_ok; -3; journal of the generator body (one entry
+    once it has been started); -5; operation results ...; -4; results of the undecorated generator ...;
+    -6; per script step: value bad as a yield; -7; ... bad as a return value; -8; per operation: sent value bad;
+    -9; on_throw object bad as yield; bad as return;
+    -10; per script step: value good as a yield; -11; good as return; -12; per operation: sent value good; -13; on_throw object good as yield; as return] *)
+Definition eval_gen (cl : list (nat * cls)) (f : fn) (c : call) (ot : on_throw) (script : list gstep) (ops : list gop) : list Z :=
+  let ctx := ctx_of cl in
+  let head := [enc_b (c03_args_bad ctx f c); enc_b (c04_call_ok ctx f c)] in
+  match run_gen1 ctx f c with
+  | (Raise e, _) => exn_code e :: head ++ [-3; -5; -4; -6; -7; -8; -9; -10; -11; -12; -13]
+  | (Ok g, _) =>
+      match g_types g with
+      | None => 99 :: head ++ [-3; -5; -4; -6; -7; -8; -9; -10; -11; -12; -13]
+      | Some (y, s, r) =>
+          let (codes, w) := ops_code ot script y s r wstate0 ops in
+          let started := negb (Nat.eqb (List.length (g_hist (w_inner w))) 0) in
+          let otv := match ot with TPropagate => None | TRet v | TYield v => Some v end in
+          let sent := map (fun o => match o with OpSend v => Some v | OpNext => Some VNone | _ => None end) ops in
+          0 :: head ++ [-3] ++ (if started then entry_code (g_bind g, g_cons g) else []) ++ [-5] ++ codes
+            ++ [-4] ++ twin_ops_code ot script gstate0 ops
+            ++ [-6] ++ map (fun st => bad_under y (step_value st)) script
+            ++ [-7] ++ map (fun st => bad_under r (step_value st)) script
+            ++ [-8] ++ map (bad_under s) sent
+            ++ [-9; bad_under y otv; bad_under r otv]
+            ++ [-10] ++ map (fun st => ok_under y (step_value st)) script
+            ++ [-11] ++ map (fun st => ok_under r (step_value st)) script
+            ++ [-12] ++ map (ok_under s) sent
+            ++ [-13; ok_under y otv; ok_under r otv]
+      end
+  end.
